@@ -2,13 +2,13 @@ SPECIFICATION Spec
 CONSTANTS
   NF = 2
   MaxLen = 60
-  Kinds = {"sublog", "subshort", "mod", "modeonly", "rename"}
+  Kinds = {"sublog", "subshort", "mod", "modeonly", "rename", "subdel", "subadd"}
   MaxHunks = 1
   MaxBody = 2
   Preamble = TRUE
   MaxConf = 1
   Buf = 1
-  Fixes = {"D1", "D14", "D2", "D18", "D19", "D20", "D21", "D23", "D24"}
+  Fixes = {"D1", "D14", "D2", "D18", "D19", "D20", "D21", "D23", "D24", "D25"}
   ColorOnly = FALSE
   Modes = {}
 VIEW View
